@@ -118,10 +118,18 @@ pub struct ExploreResult {
     pub divergence: Option<String>,
 }
 
+/// overall deadline of the run: an exploration never gets more time than what is left of it
+pub static DEADLINE: StdMutex<Option<std::time::Instant>> = StdMutex::new(None);
+
 pub fn shuttle_config() -> shuttle::Config {
     let mut c = shuttle::Config::new();
     // wall cap per (configuration, bound); a capped exploration is reported as not exhausted
-    c.max_time = Some(std::time::Duration::from_secs(std::env::var("VERIF_SCHED_CAP_S").ok().and_then(|s| s.parse().ok()).unwrap_or(900)));
+    let per_call = std::time::Duration::from_secs(std::env::var("VERIF_SCHED_CAP_S").ok().and_then(|s| s.parse().ok()).unwrap_or(900));
+    let left = DEADLINE.lock().unwrap().map(|d| d.saturating_duration_since(std::time::Instant::now()));
+    c.max_time = Some(match left {
+        Some(l) => per_call.min(l.max(std::time::Duration::from_millis(200))),
+        None => per_call,
+    });
     c.silence_warnings = true;
     c.failure_persistence = shuttle::FailurePersistence::None;
     c.stack_size = 0x40000;
